@@ -484,3 +484,42 @@ Proof.
     { unfold src. replace n with 0 by lia. reflexivity. }
     rewrite Zs in V2. cbn [map] in V2. apply map_eq_nil' in V2. rewrite V2, E0. reflexivity.
 Qed.
+
+(* append(const T* values, n) with values = &y[i] (o = Some y) or = &this[i] (o = None) *)
+Lemma arr_append_range_ok a o i n w :
+  wfw w -> holds w (aelems a ++ other_elems o) -> holdsb w (ablks a) -> awf a ->
+  exists a' w', arr_append_range a o i n w = Ok (a', w') /\
+    trans w w' (aelems a) (aelems a') (ablks a) (ablks a') /\
+    avals w' a' = avals w a ++ firstn n (skipn i (avals w (match o with Some y => y | None => a end))) /\ awf a'.
+Proof.
+  intros W H Hb WF. unfold arr_append_range.
+  pose proof (holds_app_l _ _ _ H) as Ha. pose proof (holds_app_r _ _ _ H) as Ho.
+  destruct (arr_reserve_ok a (length (aelems a) + n) w W Ha Hb WF)
+    as (a1 & w1 & E1 & T1 & V1 & WF1 & C1 & S1 & _). run E1.
+  set (src := firstn n (skipn i (aelems (match o with Some y => y | None => a1 end)))).
+  assert (Hsrc : forall s, In s src -> In s (dom (heap w1))).
+  { intros s J. unfold src in J. apply (mle_in _ _ _ (mle_firstn _ _)) in J.
+    apply (mle_in _ _ _ (mle_skipn _ _)) in J. destruct o as [y|].
+    - eapply holds_in; [apply (holds_keep _ _ _ _ _ _ (aelems y) T1 H) | exact J].
+    - eapply in_new; [exact T1 | exact Ha | exact J]. }
+  destruct (copy_list_ok src w1 ltac:(twf T1) Hsrc) as (l' & w' & E2 & T2 & V2). run E2.
+  eexists _, _. split; [reflexivity|]. unfold set_elems. cbn [aelems astore acap].
+  split; [|split].
+  - unfold ablks at 2. cbn [astore]. fold (ablks a1).
+    eapply (trans_seq [] (aelems a1) [] (ablks a1) _ _ _ _ _ _ _ _ _ _ _ _ _ _ _ T1 T2); msolve.
+  - unfold avals. cbn [aelems]. rewrite map_app. f_equal.
+    + transitivity (map (val w1) (aelems a1)); [|exact V1].
+      eapply trans_keep_map; [exact T2|]. intros j J. split; [|tauto].
+      eapply in_new; [exact T1 | exact Ha | exact J].
+    + rewrite V2. unfold src. rewrite <- firstn_map, <- skipn_map. f_equal. f_equal. destruct o as [y|].
+      * cbn [other_elems] in *.
+        eapply trans_keep_map; [exact T1|]. intros j J. split; [eapply holds_in; eauto|].
+        eapply (holds_disjoint _ _ _ _ W H); eauto.
+      * exact V1.
+  - destruct WF1 as [WFa WFb]. split; cbn [astore acap aelems]; auto.
+    intro Q. destruct (WFa Q) as [C0 E0]. split; auto.
+    assert (Z0 : n = 0) by lia.
+    assert (Zs : src = []).
+    { unfold src. rewrite Z0. reflexivity. }
+    rewrite Zs in V2. cbn [map] in V2. apply map_eq_nil' in V2. rewrite V2, E0. reflexivity.
+Qed.
